@@ -328,12 +328,15 @@ func matchKnown(ks []knownFinding, prop, family string, r *replayFile) *knownFin
 }
 
 type famResult struct {
-	desc     famDesc
-	agg      workerOut
-	sigs     map[uint64]int
-	wall     float64
-	failures []failure      // kept witnesses (per job: a few per class, fewer for recorded findings)
-	failRuns map[string]int // class -> number of failing runs, all of them
+	desc          famDesc
+	agg           workerOut
+	sigs          map[uint64]int
+	wall          float64
+	failures      []failure       // kept witnesses (per job: a few per class, fewer for recorded findings)
+	failRuns      map[string]int  // class -> number of failing runs, all of them
+	reportedClass map[string]bool // classes with a reported (replayed) witness
+	crashNote     string          // first worker death of the family (the span was re-run one process per run)
+	noReplay      map[string]int  // class -> witnesses that did not reproduce in a fresh process
 }
 
 func (fr *famResult) distinct() int {
@@ -466,6 +469,7 @@ func check(bin, dir, prop, tier string, base uint64, workers int, scale float64,
 		// allowed to hide other violations of the same class: those are set aside (one representative is
 		// still shrunk, replayed and printed as KNOWN-FINDING), every other failure is treated on its own.
 		seen := map[string]int{}
+		reported := map[string]int{}
 		knownSeen := map[*knownFinding]int{}
 		for _, f := range fr.failures {
 			var pre *knownFinding
@@ -494,8 +498,25 @@ func check(bin, dir, prop, tier string, base uint64, workers int, scale float64,
 			}
 			rf := reportFailure(bin, dir, prop, tier, base, d, f, msgHas)
 			if rf == nil {
+				if fr.noReplay == nil {
+					fr.noReplay = map[string]int{}
+				}
+				fr.noReplay[f.Class]++
+				if pre != nil {
+					knownSeen[pre]--
+				} else {
+					seen[f.Class]-- // does not count as a reported witness: the next one of this class is tried
+				}
+				if fr.noReplay[f.Class] >= 6 {
+					seen[f.Class] = 99 // six witnesses in a row did not reproduce: give up on the class
+				}
 				continue
 			}
+			reported[f.Class]++
+			if fr.reportedClass == nil {
+				fr.reportedClass = map[string]bool{}
+			}
+			fr.reportedClass[f.Class] = true
 			if k := matchKnown(known, prop, d.Name, rf); k != nil {
 				fmt.Printf("KNOWN-FINDING: property=%s %s [class=%s family=%s replay=%s]\n", prop, k.What, rf.Class, d.Name, replayPath(prop, d.Name, rf))
 				continue
@@ -505,6 +526,15 @@ func check(bin, dir, prop, tier string, base uint64, workers int, scale float64,
 			fmt.Printf("  class=%s msg=%s\n", rf.Class, strings.SplitN(rf.Msg, "\n", 2)[0])
 			fmt.Printf("  witness=%s\n", strings.Join(rf.Witness, " "))
 			fmt.Printf("VIOLATION property=%s replay=%s\n", prop, replayPath(prop, d.Name, rf))
+		}
+	}
+	// a class all of whose tried witnesses failed to reproduce in a fresh process proves nothing either way
+	unreproduced := []string{}
+	for _, fr := range results {
+		for c, n := range fr.noReplay {
+			if n > 0 && !fr.reportedClass[c] {
+				unreproduced = append(unreproduced, fmt.Sprintf("%s/%s:%s(%d witnesses)", prop, fr.desc.Name, c, n))
+			}
 		}
 	}
 	// required probes
@@ -531,13 +561,23 @@ func check(bin, dir, prop, tier string, base uint64, workers int, scale float64,
 			os.WriteFile(filepath.Join(verifDir, ".build", "failures-"+prop+"-"+fr.desc.Name+".txt"), []byte(sb.String()), 0o644)
 		}
 	}
+	if exit == 0 && len(unreproduced) > 0 {
+		fmt.Fprintf(os.Stderr, "INFRA: failing runs whose failure does not reproduce in a fresh process (state carried between runs of one worker process, or a choice the simulator does not own): %v\n", unreproduced)
+		return 2
+	}
+	for _, fr := range results {
+		if exit == 0 && fr.crashNote != "" {
+			fmt.Fprintf(os.Stderr, "INFRA: a worker process died and the isolated re-run of its span showed no violation: %s\n", fr.crashNote)
+			return 2
+		}
+	}
 	if exit == 0 && len(probeMissing) > 0 {
 		fmt.Fprintf(os.Stderr, "INFRA: required reach probes stuck at 0: %v (the batch proves nothing)\n", probeMissing)
 		return 2
 	}
 	for _, fr := range results {
 		for k, v := range fr.agg.Aborts {
-			if k != "wallclock" && v > 0 && exit == 0 {
+			if k != "wallclock" && k != "worker-died-span-rerun-isolated" && k != "run-died-alone" && v > 0 && exit == 0 {
 				fmt.Fprintf(os.Stderr, "INFRA: %d runs aborted (%s)\n", v, k)
 				return 2
 			}
@@ -552,6 +592,41 @@ func sumInts(m map[string]int) int {
 		n += v
 	}
 	return n
+}
+
+// merge adds one worker's counters and failures to the family's (caller holds the lock).
+func (fr *famResult) merge(wo *workerOut) {
+	fr.agg.Runs += wo.Runs
+	fr.agg.Nontrivial += wo.Nontrivial
+	fr.agg.Steps += wo.Steps
+	fr.agg.SimNs += wo.SimNs
+	fr.agg.Evals += wo.Evals
+	for i, s := range wo.Sigs {
+		wgt := 1
+		if i < len(wo.SigW) {
+			wgt = wo.SigW[i]
+		}
+		fr.sigs[s] = wgt
+	}
+	for k, v := range wo.Faults {
+		fr.agg.Faults[k] += v
+	}
+	for k, v := range wo.Probes {
+		fr.agg.Probes[k] += v
+	}
+	for k, v := range wo.States {
+		fr.agg.States[k] += v
+	}
+	for k, v := range wo.Aborts {
+		fr.agg.Aborts[k] += v
+	}
+	if len(fr.agg.Samples) < 3 {
+		fr.agg.Samples = append(fr.agg.Samples, wo.Samples...)
+	}
+	fr.failures = append(fr.failures, wo.Failures...)
+	for k, v := range wo.FailRuns {
+		fr.failRuns[k] += v
+	}
 }
 
 func replayPath(prop, fam string, rf *replayFile) string {
@@ -606,6 +681,43 @@ func runFamily(bin, dir, prop, tier string, base uint64, workers int, scale floa
 				}
 				wo, out, err := runWorker(bin, dir, job{Prop: prop, Family: d.Name, Mode: "search", Tier: tier, Base: base,
 					Start: sp.start, Count: sp.count, WallS: left, Known: knownPhrases}, 1, time.Duration(left+60)*time.Second)
+				if err != nil && sp.count > 1 {
+					// The worker process died (a fatal runtime error, the watchdog). One process executes many runs, so
+					// state that the code under test keeps in package variables can reach from one run into the next (and
+					// touching a previous run's bubble is fatal). Such a death says nothing about the property: the first
+					// seeds of the span are run again, one process per run, so that what a single run shows by itself is
+					// still found; only runs that die alone are counted as aborted.
+					tail := out
+					if len(tail) > 1500 {
+						tail = tail[len(tail)-1500:]
+					}
+					mu.Lock()
+					fr.agg.Aborts["worker-died-span-rerun-isolated"]++
+					if fr.crashNote == "" {
+						fr.crashNote = fmt.Sprintf("worker (%s/%s seeds %d+%d): %v\n%s", prop, d.Name, sp.start, sp.count, err, tail)
+					}
+					mu.Unlock()
+					n := sp.count
+					if n > 40 {
+						n = 40
+					}
+					for k := uint64(0); k < n; k++ {
+						left = time.Until(deadline).Seconds()
+						if left < 1 {
+							break
+						}
+						w1, _, e1 := runWorker(bin, dir, job{Prop: prop, Family: d.Name, Mode: "search", Tier: tier, Base: base,
+							Start: sp.start + k, Count: 1, WallS: left, Known: knownPhrases}, 1, 3*time.Minute)
+						mu.Lock()
+						if e1 != nil {
+							fr.agg.Aborts["run-died-alone"]++
+						} else {
+							fr.merge(w1)
+						}
+						mu.Unlock()
+					}
+					continue
+				}
 				if err != nil {
 					tail := out
 					if len(tail) > 6000 {
@@ -614,38 +726,9 @@ func runFamily(bin, dir, prop, tier string, base uint64, workers int, scale floa
 					infra("worker (%s/%s seeds %d+%d): %v\n%s", prop, d.Name, sp.start, sp.count, err, tail)
 				}
 				mu.Lock()
-				fr.agg.Runs += wo.Runs
-				fr.agg.Nontrivial += wo.Nontrivial
-				fr.agg.Steps += wo.Steps
-				fr.agg.SimNs += wo.SimNs
-				fr.agg.Evals += wo.Evals
-				for i, s := range wo.Sigs {
-					wgt := 1
-					if i < len(wo.SigW) {
-						wgt = wo.SigW[i]
-					}
-					fr.sigs[s] = wgt
-				}
-				for k, v := range wo.Faults {
-					fr.agg.Faults[k] += v
-				}
-				for k, v := range wo.Probes {
-					fr.agg.Probes[k] += v
-				}
-				for k, v := range wo.States {
-					fr.agg.States[k] += v
-				}
-				for k, v := range wo.Aborts {
-					fr.agg.Aborts[k] += v
-				}
-				if len(fr.agg.Samples) < 3 {
-					fr.agg.Samples = append(fr.agg.Samples, wo.Samples...)
-				}
-				fr.failures = append(fr.failures, wo.Failures...)
-				for k, v := range wo.FailRuns {
-					fr.failRuns[k] += v
-				}
+				fr.merge(wo)
 				mu.Unlock()
+				continue
 			}
 		}()
 	}
@@ -689,7 +772,11 @@ func reportFailure(bin, dir, prop, tier string, base uint64, d famDesc, f failur
 		tape = f.Tape
 		shrunk = "minimised tape did not reproduce in a fresh process; original tape kept"
 		if len(r.Violations) == 0 || r.Violations[0].Class != f.Class {
-			infra("failure of %s/%s index %d (class %s) does not replay in a fresh process: non-determinism in the harness", prop, d.Name, f.Index, f.Class)
+			// Not reproducible in a fresh process: the run depended on what earlier runs of the same worker process left
+			// behind (package-level state in the code under test) or on a choice the simulator does not own. Such a
+			// witness is never reported; the caller goes on to the next witness of the class.
+			fmt.Fprintf(os.Stderr, "note: failure of %s/%s index %d (class %s) does not replay in a fresh process; trying another witness\n", prop, d.Name, f.Index, f.Class)
+			return nil
 		}
 	}
 	rf := &replayFile{Property: prop, Family: d.Name, Tier: tier, BaseSeed: base, Index: f.Index, RunSeed: f.Seed, Class: f.Class,
